@@ -72,3 +72,42 @@ Definition Mm : mat := map (fun i => map (fun j => oe (mul Ct_op (mul D_op (op_o
 Example ex_kron_hyp :
   Forall2 is_id [4%nat] (mul_list [op_of_mat (inv_or_nil Mm)] (mul_list [Ct_op] (mul_list [D_op] [op_of_mat Cqm]))).
 Proof. repeat constructor; apply is_id_b_sound; vm_compute; reflexivity. Qed.
+
+(* ---- projections and default nodes ---- *)
+Definition kv1 := [q 0 1; q 0 1; q 1 4; q 1 2; q 1 1; q 1 1].
+Definition kv0 := [q 0 1; q 1 4; q 1 1].
+Example ex_open_p01 : open_kv kv1 1 = true /\ open_kv kv0 0 = true.
+Proof. split; vm_compute; reflexivity. Qed.
+(* greville_unisolvent_p01 computed on these two knot vectors *)
+Example ex_identity_p01 :
+  is_id_b 4 (op_of_mat (collocation kv1 1 (greville kv1 1))) = true /\
+  is_id_b 2 (op_of_mat (collocation kv0 0 (greville kv0 0))) = true.
+Proof. split; vm_compute; reflexivity. Qed.
+(* greville_satisfies_sw_necessary computed for the cubic knot vector with a double knot *)
+Example ex_sw_diag : forallb (fun i => qltb 0 (mget C3 i i)) (seq 0 7) = true.
+Proof. vm_compute. reflexivity. Qed.
+
+(* l2_projection_is_projection: an exact solver exists for the example Gram matrix (its inverse),
+   weights are positive (ex_weights_positive); the unisolvence hypothesis holds because the
+   Gram matrix is invertible (ex_mass_invertible).  The projection of a function of the space,
+   computed with that solver, returns its coefficients: *)
+Definition Minv_ex := inv_or_nil (map (fun i => map (fun j => massq 6 Cq_ex w_ex i j) (seq 0 4)) (seq 0 4)).
+Definition sol_ex (b : nat -> Qc) (i : nat) : Qc := sumn 4 (fun j => mget Minv_ex i j * b j).
+Example ex_solver_contract_on_basis :
+  forallb (fun k => forallb (fun i =>
+     qeqb (mv 4 (massq 6 Cq_ex w_ex) (sol_ex (fun j => if Nat.eqb j k then 1 else 0)) i) (if Nat.eqb i k then 1 else 0))
+     (seq 0 4)) (seq 0 4) = true.
+Proof. vm_compute. reflexivity. Qed.
+Example ex_l2_reproduced :
+  forallb (fun i => qeqb (sol_ex (loadq 6 Cq_ex w_ex (spl 4 Cq_ex c_ex)) i) (c_ex i)) (seq 0 4) = true.
+Proof. vm_compute. reflexivity. Qed.
+
+(* ---- hierarchical setting: two "hierarchical" functions made of the four fine quadratic ones ---- *)
+Definition P_ex (r i : nat) : Qc := nth i (nth r [[q 1 1; q 0 1]; [q 1 2; q 1 2]; [q 0 1; q 1 1]; [q 0 1; q 1 1]] []) 0.
+Example ex_hier_gram :
+  forallb (fun i => forallb (fun j => qeqb (massq 6 (Ch 4 Cq_ex P_ex) w_ex i j) (galerkin 4 6 Cq_ex P_ex w_ex i j)) (seq 0 2)) (seq 0 2) = true.
+Proof. vm_compute. reflexivity. Qed.
+(* the Galerkin matrix of the example is invertible: hypothesis of hspace_l2_reproduces_partial *)
+Example ex_hier_injective :
+  match inverse (map (fun i => map (fun j => galerkin 4 6 Cq_ex P_ex w_ex i j) (seq 0 2)) (seq 0 2)) with Some _ => true | None => false end = true.
+Proof. vm_compute. reflexivity. Qed.
